@@ -81,6 +81,20 @@ CHECKS = {
    note="Square root, higher-than-quadratic distortion terms and rounding are outside the theorems (tolerance 1e-7).",
    technique="Lean 4 proof (polynomial identity, ring) + finite-difference oracle",
    ref="5/C20"),
+ 'C05': dict(
+   text="Theorems (flat-sky model): every FITS member of a group corrected with the same (M, s, plane) is moved by ONE "
+        "sky-level affine G = P^-1 (M,s) P whatever its tangent point, orientation, scale, distortion or history, so the "
+        "relative geometry of members is preserved; every gWCS member is moved by (M, s) in the plane of the fit; G is "
+        "unchanged when plane and correction are conjugated together ((QP)^-1 (Q f Q^-1) (QP) = P^-1 f P), hence the "
+        "same sky positions for any plane of the fit given an equivariant fit (C08). Correspondence: corrector models "
+        "fed with the reported (M, s) and the plane vs every member after real align_wcs runs on groups of 1..4 mixed "
+        "FITS/gWCS members. Oracle: landing of all members, identical fit_info, rigidity on probe pixels, repeat in an "
+        "alternative plane (rotated / scaled / other corrector type).",
+   note="On the sphere the statements hold up to the first-order plane-to-plane term (correction size x tangent-point "
+        "separation x field size) that the property itself allows: tolerance, not theorem. For rshift/rscale the "
+        "alternative plane must be a conformal chart (the family is closed only under similarities).",
+   technique="Lean 4 proof (conjugation algebra of affine maps) + differential correspondence on real groups",
+   ref="5/C05"),
  'C17': dict(
    text="Theorems for every order n over any linearly ordered field: whatever the model of linalg.inv returns is the "
         "two-sided inverse (and therefore the unique one); a singular matrix can only produce the singular error; "
